@@ -484,6 +484,8 @@ class Prop:
             cls = "moment"
             if N == 1 and alg != "exact":
                 cls = "moment-approx-1d"                       # D20
+            elif N == 1 and end_cp_rank(a) > 1:
+                cls = "moment-exact-1d-cp-rank"                # exact path on a 1-D CP vector of rank > 1
             elif marg and op == "raw_moment" and end_cp_rank(a) > 1:
                 cls = "raw-moment-marginals-cp-end"            # first or last core CP with rank > 1
             if op == "normalized_moment":
